@@ -133,10 +133,16 @@ def c01(tier, seed):
     if tier == "quick":
         t = session("c01-honest", PskMode="single")
         r = replay("C01", t, seed, 2)
+        t2 = session("c01-honest-ring", PskMode="single", PubLens=[32], Variants=["tr"])
+        r2 = replay("C01", t2, seed, 1, backends="mix-sample")
     else:
         t = session("c01-honest", PskMode="all", Profiles=["small", "zero"])
         r = replay("C01", t, seed, 0, threads=14)
-    return merge("model_checking", [t], [r], RULE_D1 +
+        t2 = session("c01-honest-ring", PskMode="all", PubLens=[32])
+        r2 = replay("C01", t2, seed, 2, backends="mix", threads=14)
+    return merge("model_checking", [t, t2], [r, r2], RULE_D1 +
+                 "a second run assigns ring-backed resolvers to the endpoints (fallback(ring,default), fallback(default,ring), "
+                 "default in every mix), since a conforming endpoint must interoperate whatever its backend; "
                  "here: honest sessions, one symbolic transcript per (pattern, psk set, public-key length, pad/hash init "
                  "class, payload profile, transport variant); quick: 2 names per scenario rotating over cipher/hash, "
                  "thorough: every one of the 13 344 names; every message, handshake hash, payload-encrypted flag, raw split "
@@ -171,9 +177,16 @@ def c07(tier, seed):
         t2 = session("c07-faults-psk", FaultBudget=1, PskMode="only", PubLens=[32], InitPads=[False], Variants=["tr"],
                      FixedEs=[False], TrafficMode="short", PatSet=["N", "NN", "XX", "IK", "KK", "X1X1", "NX1", "K1K1"])
         r2 = replay("C07", t2, seed, 1)
-        tl, rl = [t1, t2], [r1, r2]
+        t3 = session("c07-latepsk", PskMode="only", LatePsk=True, PubLens=[32], InitPads=[False], Variants=["tr"],
+                     TrafficMode="short", PatSet=["NN", "XX", "IK", "N", "X1X1", "K1K"])
+        r3 = replay("C07", t3, seed, 1)
+        tl, rl = [t1, t2, t3], [r1, r2, r3]
     else:
         tl, rl = [], []
+        t3 = session("c07-latepsk", PskMode="only", LatePsk=True, FaultBudget=1, FaultKinds=["wbuf", "routbuf", "ralt"],
+                     PubLens=[32], InitPads=[False], Variants=["tr"], TrafficMode="short")
+        rl.append(replay("C07", t3, seed, 1, threads=14))
+        tl.append(t3)
         for i, grp in enumerate([BASE[:12], BASE[12:24], BASE[24:]]):
             t = session(f"c07-faults-{i}", FaultBudget=1, PatSet=grp, PskMode="single", Variants=["tr", "sl"],
                         FixedEs=[True, False], TrafficMode="short")
@@ -210,6 +223,10 @@ def c06(tier, seed):
                      PubLens=[32], InitPads=[False], Variants=["tr"], TrafficMode="short")
     r1 = replay("C06", t1, seed, 1, threads=14)
     r2 = replay("C06", t2, seed, 1, threads=14)
+    t3 = session("c06-faults-p256", FaultBudget=1, FaultKinds=["wbuf", "wmax"], PubLens=[65], InitPads=[False], Variants=["tr"],
+                 TrafficMode="short", PskMode="single",
+                 PatSet=(["NN", "XX", "IK", "N", "KX", "X1X1"] if tier == "quick" else BASE))
+    r3 = replay("C06", t3, seed, 1, threads=14)
     if tier == "quick":
         tcfg = [("c06-tr-rekey", dict(MaxSend=2, Depth=4, BadBudget=0, SetBudget=0, RekeyBudget=2, SmallBufs=False)),
                 ("c06-sl", dict(Stateful=False, MaxSend=1, Depth=2, BadBudget=0, SetBudget=0, SmallBufs=False))]
@@ -218,7 +235,7 @@ def c06(tier, seed):
                 ("c06-sl", dict(Stateful=False, MaxSend=2, Depth=3, BadBudget=0, SetBudget=0, SmallBufs=False)),
                 ("c06-top", dict(NonceMode="top", MaxSend=3, Depth=5, BadBudget=1, SetBudget=0, RekeyBudget=1))]
     tl2, rl2 = tlegs("C06", seed, tcfg)
-    return merge("model_checking", [t1, t2] + tl2, [r1, r2] + rl2, RULE_D1 +
+    return merge("model_checking", [t1, t2, t3] + tl2, [r1, r2, r3] + rl2, RULE_D1 +
                  "transport: every interleaving of writes, deliveries and rekeys (stateful), and stateless writes under nonces "
                  "that differ only above bit 32 - the recording cipher sees the 64-bit nonce, the byte comparison sees what the "
                  "backend did with it; "
@@ -239,7 +256,14 @@ def c14(tier, seed):
         r1 = replay("C14", t1, seed, 1)
         r2 = replay("C14", t2, seed, 1)
         tcfg = [("c14-tr", dict(MaxSend=1, Depth=2, BadBudget=1, SetBudget=0, SmallBufs=True, BigBudget=1)),
-                ("c14-sl", dict(Stateful=False, MaxSend=1, Depth=2, BadBudget=1, SetBudget=0, SmallBufs=True, BigBudget=1))]
+                ("c14-sl", dict(Stateful=False, MaxSend=1, Depth=2, BadBudget=1, SetBudget=0, SmallBufs=True, BigBudget=1)),
+                ("c14-ow", dict(OneWayT=True, MaxSend=1, Depth=2, BadBudget=1, SetBudget=0, SmallBufs=True, BigBudget=1)),
+                ("c14-ow-sl", dict(OneWayT=True, Stateful=False, MaxSend=1, Depth=2, BadBudget=0, SetBudget=0, SmallBufs=True,
+                                   BigBudget=1))]
+        t3 = session("c14-faults-psk", FaultBudget=1, FaultKinds=["wmax", "wbuf"], PskMode="only", Profiles=["small"],
+                     PubLens=[32], InitPads=[False], Variants=["tr"], TrafficMode="short",
+                     PatSet=["N", "NN", "XX", "KN", "IX", "IK", "X1X1", "NK1"])
+        r3 = replay("C14", t3, seed, 1)
     else:
         t1 = session("c14-honest", Profiles=["max", "zero", "tag", "mid"], BufModes=["big", "exact"], PskMode="all")
         r1 = replay("C14", t1, seed, 2, threads=14)
@@ -248,8 +272,14 @@ def c14(tier, seed):
         r2 = replay("C14", t2, seed, 2, threads=14)
         tcfg = [("c14-tr", dict(MaxSend=2, Depth=3, BadBudget=1, SetBudget=0, SmallBufs=True, BigBudget=1)),
                 ("c14-sl", dict(Stateful=False, MaxSend=1, Depth=3, BadBudget=1, SetBudget=0, SmallBufs=True, BigBudget=1)),
-                ("c14-ow", dict(OneWayT=True, MaxSend=1, Depth=3, BadBudget=1, SetBudget=0, SmallBufs=True, BigBudget=1))]
+                ("c14-ow", dict(OneWayT=True, MaxSend=1, Depth=3, BadBudget=1, SetBudget=0, SmallBufs=True, BigBudget=1)),
+                ("c14-ow-sl", dict(OneWayT=True, Stateful=False, MaxSend=1, Depth=3, BadBudget=0, SetBudget=0, SmallBufs=True,
+                                   BigBudget=1))]
+        t3 = session("c14-faults-psk", FaultBudget=1, FaultKinds=["wmax", "wbuf"], PskMode="only", Profiles=["small", "max"],
+                     InitPads=[False], Variants=["tr"], TrafficMode="short")
+        r3 = replay("C14", t3, seed, 1, threads=14)
     tl2, rl2 = tlegs("C14", seed, tcfg)
+    tl2, rl2 = tl2 + [t3], rl2 + [r3]
     return merge("model_checking", [t1, t2] + tl2, [r1, r2] + rl2, RULE_D1 +
                  "transport: buffers exactly / one byte short of payload+16, payloads of 65519 and 65520 bytes, reads with exact "
                  "and one-byte-short buffers, messages of 65536 bytes; "
@@ -327,11 +357,15 @@ def tlegs(prop, seed, configs, per_scn=1):
 
 def c05(tier, seed):
     if tier == "quick":
-        cfgs = [("c05-tr", dict(MaxSend=2, Depth=4, BadBudget=1, SetBudget=1))]
+        cfgs = [("c05-tr", dict(MaxSend=2, Depth=4, BadBudget=1, SetBudget=1)),
+                ("c05-top", dict(NonceMode="top", MaxSend=1, Depth=5, BadBudget=0, SetBudget=2, SmallBufs=False)),
+                ("c05-tr-ring", dict(MaxSend=2, Depth=3, BadBudget=1, SetBudget=0, backends="mix-sample"))]
     else:
         cfgs = [("c05-tr", dict(MaxSend=3, Depth=5, BadBudget=1, SetBudget=1)),
                 ("c05-tr-deep", dict(MaxSend=3, Depth=7, BadBudget=0, SetBudget=0, SmallBufs=False)),
-                ("c05-tr-oneway", dict(OneWayT=True, MaxSend=3, Depth=5, BadBudget=1, SetBudget=1))]
+                ("c05-tr-oneway", dict(OneWayT=True, MaxSend=3, Depth=5, BadBudget=1, SetBudget=1)),
+                ("c05-top", dict(NonceMode="top", MaxSend=2, Depth=6, BadBudget=1, SetBudget=2, SmallBufs=False)),
+                ("c05-tr-ring", dict(MaxSend=2, Depth=4, BadBudget=1, SetBudget=1, backends="mix"))]
     tl, rl = tlegs("C05", seed, cfgs)
     res = merge("model_checking", tl, rl, RULE_T +
                  "here: stateful mode; all delivery schedules of the sent messages to either endpoint (reordering, loss, "
@@ -393,7 +427,10 @@ def apalache_nonce():
 def c09(tier, seed):
     if tier == "quick":
         cfgs = [("c09-top", dict(NonceMode="top", MaxSend=3, Depth=4, BadBudget=1, SetBudget=1)),
-                ("c09-top-sl", dict(NonceMode="top", Stateful=False, MaxSend=1, Depth=3, BadBudget=0, SetBudget=0))]
+                ("c09-top-sl", dict(NonceMode="top", Stateful=False, MaxSend=1, Depth=3, BadBudget=0, SetBudget=0)),
+                ("c09-top-ow", dict(NonceMode="top", OneWayT=True, MaxSend=2, Depth=4, BadBudget=0, SetBudget=2, SmallBufs=False)),
+                ("c09-lo-big", dict(MaxSend=1, Depth=3, BadBudget=0, SetBudget=1, SmallBufs=True, BigBudget=1)),
+                ("c09-sl-big", dict(Stateful=False, MaxSend=1, Depth=2, BadBudget=0, SetBudget=0, SmallBufs=False, BigBudget=1))]
     else:
         cfgs = [("c09-top", dict(NonceMode="top", MaxSend=3, Depth=6, BadBudget=1, SetBudget=2)),
                 ("c09-lo", dict(NonceMode="lo", MaxSend=3, Depth=5, BadBudget=1, SetBudget=2)),
